@@ -140,3 +140,45 @@ func init() {
 func refuseUnmodelledTime(name string) bool {
 	return strings.HasPrefix(name, "(time.Time).") || strings.HasPrefix(name, "(*time.Time).")
 }
+
+// ---- sync/atomic as plain memory operations (sequential execution), context cancellation never observed ----
+
+func init() {
+	st := func(name string, f StubFn) { stubs[name] = f }
+	for _, ty := range []string{"Int32", "Int64", "Uint32", "Uint64", "Uintptr", "Pointer"} {
+		st("sync/atomic.Load"+ty, func(x *Exec, fr *Frame, fn *ssa.Function, a []Value, p token.Pos) Value {
+			return x.load(fr, a[0].(VRef), p)
+		})
+		st("sync/atomic.Store"+ty, func(x *Exec, fr *Frame, fn *ssa.Function, a []Value, p token.Pos) Value {
+			x.store(fr, a[0].(VRef), a[1], p)
+			return nil
+		})
+		st("sync/atomic.Swap"+ty, func(x *Exec, fr *Frame, fn *ssa.Function, a []Value, p token.Pos) Value {
+			old := x.load(fr, a[0].(VRef), p)
+			x.store(fr, a[0].(VRef), a[1], p)
+			return old
+		})
+		st("sync/atomic.CompareAndSwap"+ty, func(x *Exec, fr *Frame, fn *ssa.Function, a []Value, p token.Pos) Value {
+			old := x.load(fr, a[0].(VRef), p)
+			eq := x.valEq(old, a[1])
+			save := fr.cur
+			fr.cur = mkAnd(fr.cur, eq)
+			x.store(fr, a[0].(VRef), a[2], p)
+			fr.cur = save
+			return VBool{eq}
+		})
+		if ty != "Pointer" {
+			st("sync/atomic.Add"+ty, func(x *Exec, fr *Frame, fn *ssa.Function, a []Value, p token.Pos) Value {
+				old := x.load(fr, a[0].(VRef), p)
+				nv := VInt{mkBin(OAdd, asInt(old), asInt(a[1]))}
+				x.store(fr, a[0].(VRef), nv, p)
+				return nv
+			})
+		}
+	}
+	st("(*context.cancelCtx).Err", func(x *Exec, fr *Frame, fn *ssa.Function, a []Value, p token.Pos) Value { return nilIface() })
+	st("(*context.cancelCtx).cancel", noopStub)
+	st("(*context.cancelCtx).Done", func(x *Exec, fr *Frame, fn *ssa.Function, a []Value, p token.Pos) Value { return nilRef() })
+	st("(*context.cancelCtx).propagateCancel", noopStub)
+	st("context.Cause", func(x *Exec, fr *Frame, fn *ssa.Function, a []Value, p token.Pos) Value { return nilIface() })
+}
